@@ -141,6 +141,8 @@ def parse_tla_value(text):
 def parse_tla_state(text):
     """'/\\ a = 1\n/\\ b = <<>>' -> {'a': 1, 'b': []}"""
     st = {}
+    if not text.lstrip().startswith("/\\"):
+        text = "/\\ " + text.lstrip()
     parts = re.split(r"(?:^|\n)\s*/\\ ", "\n" + text)
     for part in parts:
         part = part.strip()
@@ -156,7 +158,7 @@ def parse_tla_state(text):
 def parse_dot(path):
     """returns (nodes: id -> state dict, edges: list of (src, label, dst), init ids)"""
     nodes, edges, inits = {}, [], []
-    node_re = re.compile(r'^(-?\d+) \[label="((?:[^"\\]|\\.)*)"(.*)\]$')
+    node_re = re.compile(r'^(-?\d+) \[label="((?:[^"\\]|\\.)*)"(.*)\];?$')
     edge_re = re.compile(r'^(-?\d+) -> (-?\d+) \[label="((?:[^"\\]|\\.)*)"')
     with open(path) as f:
         for line in f:
@@ -258,6 +260,19 @@ class Check:
     # ---------------- builds
     def build(self, *targets):
         t = time.time()
+        # content hash of the headers: a restored file with an old mtime must still trigger a rebuild
+        h = hashlib.sha1(REPO.encode())
+        inc = os.path.join(REPO, "Include")
+        for fn in sorted(os.listdir(inc)):
+            if fn.endswith(".hpp"):
+                h.update(fn.encode())
+                h.update(open(os.path.join(inc, fn), "rb").read())
+        os.makedirs(BUILD, exist_ok=True)
+        stamp = os.path.join(BUILD, "headers.sha")
+        old = open(stamp).read() if os.path.exists(stamp) else ""
+        if old != h.hexdigest():
+            with open(stamp, "w") as f:
+                f.write(h.hexdigest())
         cmd = ["make", "-s", "-C", VERIF, "-j16", "REPO=" + REPO] + ["build/" + x for x in targets]
         r = subprocess.run(cmd, stdout=subprocess.PIPE, stderr=subprocess.STDOUT, text=True)
         if r.returncode != 0:
